@@ -1482,6 +1482,13 @@ class Rules:
             # iterative %do: `%do name = from %to ...` - the '=' after the loop variable is expected
             st = seg.st
             pushes = [e.d.get("mode") for e in seg.events[seg.start:] if e.kind == "push" and e.d.get("owner") == seg.name]
+            # sibling arms of the iterative %do (`%do i=..` pushes, `%do %m=..` inserts under the call's modes) set up the
+            # same from-expression: the MacroEval they create carries the same flags (joined in lea_engine.compute)
+            made = pushes + [e.d.get("mode") for e in seg.events[seg.start:] if e.kind == "stack_insert" and e.d.get("owner") == seg.name]
+            if any(isinstance(m, Enum) and m.variant == "MacroNameExpr" for m in made):
+                for m in made:
+                    if isinstance(m, Enum) and m.variant == "MacroEval":
+                        self.bump("R-FAMILY-AGREE", "do_eval", re.sub(r"\s+", "", repr(m))[:160])
             seq = [abstract_mode(I, st, m) for m in reversed(pushes)]
             core = [m for m in seq if m != "Ws"]
             if "MacroNameExpr" in core:
@@ -2507,10 +2514,18 @@ def family_agree_obs(counts):
         kw, _, sq = k.partition("|")
         seqs.setdefault(kw, set()).add(sq)
     names = {k[3:]: k for k in seqs if k.startswith("Kwm")}
+    pre = []
+    evals = sorted(counts.get("R-FAMILY-AGREE", {}).get("do_eval", ()))
+    if evals:
+        pre.append({"rule": "R-FAMILY-AGREE", "key": "KwmDo|iterative-from-expression", "ok": len(evals) == 1, "site": "", "n": 1, "modes": [],
+                    "detail": "every flavour of the iterative %%do sets up the same from-expression mode (%s)" % evals[0] if len(evals) == 1 else
+                    "the arms of dispatch_macro_do that set up an iterative %%do create different from-expression modes: %s - the loop "
+                    "variable may be a name, a macro variable or a macro call, the expression after `=` is the same in all three, so "
+                    "one arm lexes it with the wrong flags (e.g. %%to no longer terminates it cleanly)" % " vs ".join(evals)})
     import os
     with open(os.path.join(os.path.dirname(os.path.dirname(os.path.abspath(__file__))), "tables", "family_exceptions.json")) as f:
         exempt = json.load(f)["pairs"]
-    obs = []
+    obs = list(pre)
     for root, rk in sorted(names.items()):
         fam = [names[p + root] for p in ("Q", "K", "QK") if (p + root) in names]
         if not fam:
